@@ -16,7 +16,8 @@ EXPLANATION = (
 DECIDED = ["R16a slice cannot index past the end (PANIC local)", "R16b (limit, offset) -> handler table (TABLE + SIBLING)",
            "R16c ordered searches: full search, sort, slice in that order (MUST)", "R16d comparator table, stable sort",
            "R16b (cont.) handler constructors receive limit/offset in the right positions",
-           "R16d (cont.) ordering keys are looked up by key equality"]
+           "R16d (cont.) ordering keys are looked up by key equality",
+           "R16e streaming handlers pass the conditions' Continue/Stop kind through (value provenance of every Ok return)"]
 UNDECIDED = ["that the streaming handlers count correctly (arithmetic on counters)", "result contents (needs execution)"]
 
 SQ = "agdb::query::search_query::SearchQuery::"
@@ -66,6 +67,47 @@ def handler_table(fa, b):
                     table[(lz, oz)] = (handlers, algos)
                     break
     return table, rows
+
+
+def handler_control_rule(ctx, rule="R16e"):
+    """The streaming handlers (Default/Limit/Offset/LimitOffset) decide only WHETHER an element is added and WHEN the
+    search is finished; the Continue/Stop kind computed by the conditions is passed through: every success value of
+    `process` is the evaluate_conditions result itself (possibly after set_value) or a `Finish(..)`.  A literal
+    Continue(..) / Stop(..) replaces the kind: a Stop of `not_beyond` on a skipped element would be walked past."""
+    fa = ctx.facts
+    n = 0
+    for b in sorted(fa.bodies.values(), key=lambda x: x.path):
+        if b.crate != "agdb" or b.d.get("name") != "process" or not (b.d.get("impl_trait") or "").endswith("graph_search::SearchHandler"):
+            continue
+        if not b.file.endswith("db/db_search_handlers.rs"):
+            continue
+        n += 1
+        ev = [(i, t) for i, t in cfg.calls(b) if common.norm(cfg.callee(t) or "") == "agdb::db::DbImpl::evaluate_conditions"]
+        der = cfg.derived_locals(b, [t["d"][0] for i, t in ev]) if ev else {}
+        bad = []
+        seen_ok = 0
+        for bi, st in cfg.assigns(b):
+            r = st["r"]
+            if st["l"] == [0] and r["k"] == "agg" and r.get("variant") == "Ok":
+                seen_ok += 1
+                pl = cfg.op_place(r["ops"][0]) if r["ops"] else None
+                if pl is None:
+                    bad.append(b.loc(bi))
+                    continue
+                if pl[0] in der or cfg.origin(b, pl)[0] in der:
+                    continue
+                ds = [d for d in cfg.defs(b).get(pl[0], []) if d[0] == "assign" and d[2]["k"] == "agg"]
+                if ds and all(d[2].get("variant") == "Finish" for d in ds):
+                    continue
+                bad.append("%s:%s" % (b.loc(bi), [d[2].get("variant") for d in ds] or "?"))
+        direct = bool(ev) and any(t["d"] == [0] for i, t in ev)      # DefaultHandler returns the call result itself
+        ok = bool(ev) and not bad and (seen_ok > 0 or direct)
+        name = (b.d.get("impl_self") or b.path).split("::")[-1].split("<")[0]
+        ctx.ob(rule, "%s::process:control-kind" % name, ok,
+               "returns the conditions' control (or Finish)" if ok else
+               "%s::process returns a control that is neither the evaluate_conditions result nor Finish(..) (%s): the "
+               "Stop/Continue decision of the conditions is lost" % (name, bad or "evaluate_conditions not called"), b.where)
+    ctx.floor(rule, "SearchHandler impls of db_search_handlers", n, 4)
 
 
 def run(ctx):
@@ -240,6 +282,20 @@ def run(ctx):
                "`find(|kv| kv.key == *key)`): elements lacking an earlier key would be compared by shifted values" % finds, b.where)
         stable = [1 for i, t in cfg.calls(b) if (cfg.callee_decl(t) or "").endswith("::sort_by")]
         unstable = [1 for i, t in cfg.calls(b) if "sort_unstable" in (cfg.callee_decl(t) or "")]
-        ctx.ob("R16d", "sort:stable", bool(stable) and not unstable, "uses the stable slice::sort_by" if stable and not unstable
-               else "ordering no longer uses a stable sort", b.where)
+        # ... and nothing else permutes or shortens the ids: every call that receives the id list mutably is the stable
+        # sort (or a deref on the way to it); select_nth_unstable_by / truncate / swap / reverse would change which of
+        # several equal elements end up in the returned slice
+        others = []
+        for i, t in cfg.calls(b):
+            for a in t["a"]:
+                pl = cfg.op_place(a)
+                if pl and b.local_ty(pl[0]).startswith("&mut") and (cfg.op_origin(b, a) or (0,))[0] == 2:
+                    d = cfg.callee_decl(t) or cfg.callee(t) or "?"
+                    if not d.endswith(("::sort_by", "DerefMut::deref_mut", "::as_mut_slice", "::as_mut")):
+                        others.append("%s@%s" % (d.split("::")[-1], b.loc(i)))
+        ok_st = bool(stable) and not unstable and not others
+        ctx.ob("R16d", "sort:stable", ok_st, "uses the stable slice::sort_by and nothing else reorders the ids" if ok_st
+               else "ordering no longer relies on the stable sort alone (stable sort_by: %s, unstable sorts: %s, other "
+               "mutators of the id list: %s)" % (bool(stable), bool(unstable), others), b.where)
+    handler_control_rule(ctx)
     return 0
